@@ -125,7 +125,7 @@ def limit_ok(si: int, ti: int, limit: int) -> bool:
 NSMAPS = [None, {}, {'x': 'urn:x'}, {'': 'urn:d', 'x': 'urn:x'}]
 FLAGS = [0, sv.DEBUG]
 CUSTOMS = [None, {}, CUSTOM_TXT]
-WRAP_SELECTORS = part(['a', 'x|a', ':--x', ':--y > a', 'b:not(:--x)', ':scope > *', 'a, b'])
+WRAP_SELECTORS = part(['a', 'x|a', ':--x', ':--y > a', 'b:not(:--x)', ':scope > *', 'a, b', '& > *', ':not(:scope)', ':scope', '*'])
 XML_DOC = tg.doc('xml')
 PLAIN = tg.doc('plain_hp')
 
@@ -181,6 +181,15 @@ def wrappers_ok(wi: int, ni: int, fi: int, ci: int, xml: bool) -> bool:
         ok = ok and _norm(_call(lambda: sv.match(sel, el, **kw))) == _norm(_call(lambda: comp().match(el)))
         ok = ok and _norm(_call(lambda: sv.filter(sel, docu, **kw))) == _norm(_call(lambda: comp().filter(docu)))
         ok = ok and _norm(_call(lambda: sv.closest(sel, el, **kw))) == _norm(_call(lambda: comp().closest(el)))
+        # the same with elements (with element and text children) as the call target, and with iterables
+        for t in (rm.descendants(docu)[0], rm.descendants(docu)[1], el, el.parent):
+            ok = ok and _norm(_call(lambda: sv.filter(sel, t, **kw))) == _norm(_call(lambda: comp().filter(t)))
+            ok = ok and _norm(_call(lambda: sv.filter(sel, list(t.contents), **kw))) == _norm(_call(lambda: comp().filter(list(t.contents))))
+            ok = ok and _norm(_call(lambda: sv.filter(sel, iter(t.contents), **kw))) == _norm(_call(lambda: comp().filter(iter(t.contents))))
+            ok = ok and _norm(_call(lambda: sv.select(sel, t, **kw))) == _norm(_call(lambda: comp().select(t)))
+            ok = ok and _norm(_call(lambda: sv.select_one(sel, t, **kw))) == _norm(_call(lambda: comp().select_one(t)))
+            ok = ok and _norm(_call(lambda: sv.match(sel, t, **kw))) == _norm(_call(lambda: comp().match(t)))
+            ok = ok and _norm(_call(lambda: sv.closest(sel, t, **kw))) == _norm(_call(lambda: comp().closest(t)))
     return ret(ok)
 
 
